@@ -74,6 +74,10 @@ type vConn struct {
 	stall       bool // when the input is used up the client goes silent (Read blocks) instead of closing
 	doneCh      chan struct{} // native runs only: closed by the first Close
 	onWriteFailure func()     // called when the first Write fails
+	// silent != "": the client has sent everything it will send and now waits
+	// for the server without closing; a Read that finds the input used up would
+	// block for ever, which is reported as a violation under this label
+	silent string
 }
 
 // vAwaitClosed (native runs of harnesses that let the library start its own
@@ -99,6 +103,9 @@ func (c *vConn) Read(p []byte) (int, error) {
 	}
 	if c.stall && len(p) > 0 && len(c.in.data) == c.in.pos {
 		vStall()
+	}
+	if c.silent != "" && len(p) > 0 && len(c.in.data) == c.in.pos {
+		vAssert(c.silent, false)
 	}
 	return c.in.Read(p)
 }
